@@ -29,7 +29,7 @@ CHECKS = {
    "readers return >=1 byte or an error per call; the in-memory read is the reference"),
  "C10": ("fault_enumeration", "4 C10", "I/O fault injection at every byte offset of the output stream (error and legal short write, sticky) and of the consumed input stream (sticky non-EOF error, with and without data)",
    "Per sampled file every fault offset is enumerated in both directions and both legal fault forms; files are sampled by seed. Decides that every injected failure surfaces as an error and that a nil error implies exact size.",
-   "WriteFile's os layer is not driven; writers/readers behave legally"),
+   "the file-name API meets one real failing file system (symlink to /dev/full); otherwise faults come through the io.Writer/io.Reader arguments; writers/readers behave legally"),
  "C04": ("exploration", "4 C04", "seeded sender node + wire: running-status elisions, real-time bytes interleaved anywhere, arbitrary chunking with time deltas on the virtual clock; delivered list and time stamps compared with the sent list",
    "Samples message sequences x elisions x real-time placements x chunk schedules at both real observation points (drivers.Reader.EachMessage and midi.ListenTo on the testdrv loopback inside a synctest bubble). Every chunk boundary and time delta is an explicit, replayable part of the scenario. Sampling, not enumeration.",
    "well-formed streams; raw-reader zero padding accepted; refrx cross-checked against the sender on every run"),
